@@ -567,7 +567,9 @@ def pl(
         output -= payoff
 
     if cost is not None:
-        c = torch.tensor(cost).to(spot).unsqueeze(0).unsqueeze(-1)
+        # (built directly in the dtype of the prices: going through the default dtype
+        #  would round the rates to float32 in a float64 computation)
+        c = torch.tensor(cost, dtype=spot.dtype, device=spot.device).unsqueeze(0).unsqueeze(-1)
         output -= (spot[..., 1:] * unit.diff(dim=-1).abs() * c).sum(dim=(-2, -1))
         if deduct_first_cost:
             output -= (spot[..., [0]] * unit[..., [0]].abs() * c).sum(dim=(-2, -1))
